@@ -620,6 +620,7 @@ func (e *Exec) declDigits() {
 	e.emit("(assert (forall ((v Int) (b Int)) (! (and (<= 1 (ndig v b)) (<= (ndig v b) 65)) :pattern ((ndig v b)))))")
 	e.emit("(assert (forall ((v Int) (b Int)) (! (and (<= 1 (ndigbig v b)) (<= (ndigbig v b) 1000000)) :pattern ((ndigbig v b)))))")
 
+
 }
 
 func (e *Exec) registerDigitGhosts() {
@@ -679,7 +680,6 @@ found:
 		if oc.Callee != name || (oc.Nth != 0 && oc.Nth != nth) {
 			continue
 		}
-		oc.used++
 		en := e.newEnv(fr, st, e.entry)
 		en.point = x
 		args := x.Call.Args
@@ -693,7 +693,12 @@ found:
 		if lbl == "" {
 			lbl = fmt.Sprint(i + 1)
 		}
-		e.oblige(st, "on-call", fmt.Sprintf("%s#%d:%s", name, nth, lbl), e.evalClause(en, &Clause{Text: oc.Text, Expr: oc.Expr}), e.posOf(x))
+		g, applies := e.tryClause(en, oc.Text, oc.Expr)
+		if !applies {
+			continue
+		}
+		e.clauseUsed["call:"+oc.Callee+":"+lbl]++
+		e.oblige(st, "on-call", fmt.Sprintf("%s#%d:%s", name, nth, lbl), g, e.posOf(x))
 	}
 }
 
